@@ -16,6 +16,7 @@ import (
 	"math/rand"
 	"net/http"
 	"strings"
+	"sync"
 	"time"
 
 	"github.com/lestrrat-go/jwx/v2/jwk"
@@ -184,6 +185,69 @@ func ibltBytes(refs ...string) []byte {
 	return bs
 }
 
+const ibltBB = 44 // bytes per bucket
+
+var (
+	busyMu    sync.Mutex
+	busyCache = map[int][]byte{}
+)
+
+// busyFilter is the wire form of a filter holding n keys (n large: every bucket holds many entries, nothing can be peeled).
+func busyFilter(n int) []byte {
+	busyMu.Lock()
+	defer busyMu.Unlock()
+	if b, ok := busyCache[n]; ok {
+		return append([]byte{}, b...)
+	}
+	f := tree.NewIblt(dag.IbltNumBuckets)
+	for i := 0; i < n; i++ {
+		f.Insert(hash.SHA256Sum([]byte(fmt.Sprintf("busy-%d-%d", n, i))))
+	}
+	b, _ := f.MarshalBinary()
+	busyCache[n] = b
+	return append([]byte{}, b...)
+}
+
+// pureBucketOf returns the 44 bytes of a bucket that holds exactly key (count +1 or -1) and the indices key hashes to
+// (learnt through the exported API: a filter with just that key).
+func pureBucketOf(key hash.SHA256Hash, negative bool) ([]byte, map[int]bool) {
+	single := tree.NewIblt(dag.IbltNumBuckets)
+	single.Insert(key)
+	data, _ := single.MarshalBinary()
+	own := map[int]bool{}
+	var bucket []byte
+	for i := 0; i*ibltBB < len(data); i++ {
+		if binary.LittleEndian.Uint32(data[i*ibltBB:]) == 1 {
+			own[i] = true
+			if bucket == nil {
+				bucket = append([]byte{}, data[i*ibltBB:(i+1)*ibltBB]...)
+			}
+		}
+	}
+	if negative {
+		binary.LittleEndian.PutUint32(bucket, 0xffffffff)
+	}
+	return bucket, own
+}
+
+// misplacePure overwrites `count` buckets of filter, spread over the whole index range, each with a self-consistent
+// single entry (count +-1, key K_j, hash(K_j)) at an index K_j does NOT hash to. Peeling such an entry never touches
+// the bucket it was found in. Several are placed so that some hit buckets that are empty in the receiver's own filter.
+func misplacePure(filter []byte, count int, negative bool, tag string, start int) []byte {
+	out := append([]byte{}, filter...)
+	nb := len(out) / ibltBB
+	for j := 0; j < count; j++ {
+		key := hash.SHA256Sum([]byte(fmt.Sprintf("misplaced-%s-%d", tag, j)))
+		bucket, own := pureBucketOf(key, negative)
+		idx := (start + j*nb/count) % nb
+		for own[idx] {
+			idx = (idx + 1) % nb
+		}
+		copy(out[idx*ibltBB:], bucket)
+	}
+	return out
+}
+
 // ibltVariants are the binary mutation classes for an IBLT (44-byte buckets: int32 count, uint64 hashSum, 32 byte keySum).
 func ibltVariants(op, pos string, level int, rnd *rand.Rand) []concrete {
 	valid := ibltBytes("a", "b", "c")
@@ -245,6 +309,61 @@ func ibltVariants(op, pos string, level int, rnd *rand.Rand) []concrete {
 		}
 		put("alternating-pure", alt)
 	case "unusual/array":
+		// structure-aware: a pure bucket moved / copied to an index its key does not hash to, in sparse and in busy filters
+		// (in a busy filter nothing else is pure and the key's own buckets never become pure: the peel loop must notice
+		// that it meets the same entry again)
+		for _, n := range []int{0, 3, 600, 1500, 4000, 20000} {
+			base := busyFilter(n)
+			put(fmt.Sprintf("misplaced-pure-x1-in-filter-of-%d", n), misplacePure(base, 1, false, "a", nb/2+7))
+			put(fmt.Sprintf("misplaced-pure-x8-in-filter-of-%d", n), misplacePure(base, 8, false, "b", 5))
+			put(fmt.Sprintf("misplaced-negative-pure-x8-in-filter-of-%d", n), misplacePure(base, 8, true, "c", 11))
+		}
+		{
+			// the key IS in the filter (all its own buckets hold it) and a copy of its pure bucket sits at a wrong index,
+			// before / after its own buckets
+			key := hash.SHA256Sum([]byte("copied"))
+			bucket, own := pureBucketOf(key, false)
+			for _, n := range []int{0, 4000} {
+				f := tree.NewIblt(dag.IbltNumBuckets)
+				_ = f.UnmarshalBinary(busyFilter(n))
+				f.Insert(key)
+				base, _ := f.MarshalBinary()
+				for _, at := range []int{0, nb - 1} {
+					idx := at
+					for own[idx] {
+						idx = (idx + 1) % nb
+					}
+					c := append([]byte{}, base...)
+					copy(c[idx*ibltBB:], bucket)
+					put(fmt.Sprintf("pure-bucket-copied-to-index-%d-in-filter-of-%d", idx, n), c)
+				}
+				// the key is in the filter but one / all of its own buckets are overwritten with busy content
+				garbage := busyFilter(20000)
+				c := append([]byte{}, misplacePure(base, 4, false, "d", 3)...)
+				for idx := range own {
+					copy(c[idx*ibltBB:(idx+1)*ibltBB], garbage[idx*ibltBB:(idx+1)*ibltBB])
+				}
+				put(fmt.Sprintf("pure-key-whose-own-buckets-are-busy-in-filter-of-%d", n), c)
+			}
+			// two misplaced entries sitting in each other's own buckets
+			k1, k2 := hash.SHA256Sum([]byte("cross-1")), hash.SHA256Sum([]byte("cross-2"))
+			b1, own1 := pureBucketOf(k1, false)
+			b2, own2 := pureBucketOf(k2, false)
+			c := busyFilter(4000)
+			for idx := range own2 {
+				if !own1[idx] {
+					copy(c[idx*ibltBB:], b1)
+					break
+				}
+			}
+			for idx := range own1 {
+				if !own2[idx] {
+					copy(c[idx*ibltBB:], b2)
+					break
+				}
+			}
+			put("two-pure-entries-in-each-others-buckets-busy", c)
+		}
 		// many distinct pure buckets that are consistent only locally: the peel loop runs once per distinct key
 		b := make([]byte, len(valid))
 		for i := 0; i < nb; i++ {
@@ -282,7 +401,10 @@ func ibltVariants(op, pos string, level int, rnd *rand.Rand) []concrete {
 		}
 		for k := 0; k < n; k++ {
 			b := append([]byte{}, valid...)
-			switch rnd.Intn(3) {
+			switch rnd.Intn(4) {
+			case 3: // a filter of random business with random misplaced pure entries
+				sizes := []int{0, 3, 50, 600, 1500, 4000, 20000}
+				b = misplacePure(busyFilter(sizes[rnd.Intn(len(sizes))]), 1+rnd.Intn(12), rnd.Intn(2) == 0, fmt.Sprint("r", k), rnd.Intn(nb))
 			case 0: // bit flips
 				for j := 0; j < 1+rnd.Intn(6); j++ {
 					b[rnd.Intn(len(b))] ^= byte(1 << uint(rnd.Intn(8)))
